@@ -9,7 +9,8 @@ macro_rules! h {
         #[kani::stub(core::ptr::copy, crate::kani_verif::ghost::stub_ptr_copy)]
         #[kani::stub(core::ptr::copy_nonoverlapping, crate::kani_verif::ghost::stub_ptr_copy_nonoverlapping)]
         $(#[$m])*
-        fn $name() { $body }
+        // statics are assigned explicitly first: under -Z loop-contracts their initial values are havocked
+        fn $name() { crate::kani_verif::util::set_domain(21); $body }
     };
 }
 
@@ -18,7 +19,8 @@ macro_rules! p {
     ($(#[$m:meta])* $name:ident, $body:expr) => {
         #[kani::proof]
         $(#[$m])*
-        fn $name() { $body }
+        // statics are assigned explicitly first: under -Z loop-contracts their initial values are havocked
+        fn $name() { crate::kani_verif::util::set_domain(21); $body }
     };
 }
 
